@@ -198,6 +198,7 @@ func c02Gen(c *Ctx) {
 	c02ListNullVsEmpty(c)
 	c02ArgPath(c)
 	parseWidth(c)
+	ptrToPtrKeepsNull(c)
 }
 
 // errorFlow classifies what happens to the error result of call in fn:
